@@ -24,6 +24,9 @@ type handlerInfo struct {
 	FailIdx   int // parameter index of the failure flag; -1 when the flag is the constant FailConst (a wrapper for failures only)
 	FailConst bool
 	ErrResult int // index of the handler's answer among the results (a wrapper may return zero values beside it)
+	// the constructor call stands in ViaCore, an unexported function only the handlers call, which is handed what the
+	// handler knows in a struct (`p.report(u, validationIssue{errorType: t, failure: f})`)
+	ViaCore *ssa.Function
 	DescrIdx  int // -1 if none
 	CauseIdx  int // -1 if none
 	Ctor      *ssa.Function
@@ -179,6 +182,8 @@ func buildErrModel(c *Ctx) *errModel {
 			}
 		}
 		// handlers: functions of package url that call a constructor
+		pendingCores := map[*ssa.Function]*handlerInfo{}
+		var viaCores []*ssa.Function
 		for _, f := range c.P.ModFns {
 			if core.PkgPathOf(f) != core.ModPath+"/url" {
 				continue
@@ -227,6 +232,10 @@ func buildErrModel(c *Ctx) *errModel {
 							}
 						}
 					}
+					if h.UrlIdx >= 0 && (h.TypeIdx < 0 || h.FailIdx < 0) && f.Object() != nil && !f.Object().Exported() {
+						pendingCores[f] = h // perhaps the shared core of handlers that hand it a struct (resolved below)
+						continue
+					}
 					if h.UrlIdx < 0 || h.TypeIdx < 0 || h.FailIdx < 0 {
 						m.Problems = append(m.Problems, fmt.Sprintf("%s calls an error constructor but does not have the handler signature (url, errorType, failure)", core.FuncName(f)))
 						continue
@@ -236,6 +245,70 @@ func buildErrModel(c *Ctx) *errModel {
 					}
 					m.Handlers[f] = h
 				}
+			}
+		}
+		// a function that calls a constructor without having the handler signature is the shared core of the handlers if
+		// every call of it stands in a function that has the signature and does nothing else
+		{
+			ix := sitesOf(c)
+			var pcs []*ssa.Function
+			for f := range pendingCores {
+				pcs = append(pcs, f)
+			}
+			sortFns(pcs)
+			for _, core0 := range pcs {
+				ph := pendingCores[core0]
+				var made []*handlerInfo
+				ok := !ix.taken[core0] && len(ix.sites[core0]) > 0
+				for _, cs := range ix.sites[core0] {
+					g := cs.Fn
+					h := &handlerInfo{Fn: g, UrlIdx: -1, UrlField: -1, TypeIdx: -1, FailIdx: -1, DescrIdx: -1, CauseIdx: -1, Ctor: ph.Ctor, CtorCall: ph.CtorCall, ViaCore: core0}
+					for i, p := range g.Params {
+						switch {
+						case namedOf(p.Type()) == "Url":
+							h.UrlIdx = i
+						case namedOf(p.Type()) == "ErrorType":
+							h.TypeIdx = i
+						case types.Identical(p.Type().Underlying(), types.Typ[types.Bool]):
+							h.FailIdx = i
+						case types.Identical(p.Type(), types.Typ[types.String]):
+							h.DescrIdx = i
+						case types.Identical(p.Type(), types.Universe.Lookup("error").Type()):
+							h.CauseIdx = i
+						}
+					}
+					// nothing but the call of the core, whose answer is returned
+					calls := 0
+					for _, b := range g.Blocks {
+						for _, ins := range b.Instrs {
+							switch x := ins.(type) {
+							case *ssa.Call:
+								calls++
+								if x != cs.Call {
+									ok = false
+								}
+							case *ssa.If, *ssa.MapUpdate, *ssa.Go, *ssa.Defer:
+								ok = false
+							case *ssa.Return:
+								if len(x.Results) != 1 || x.Results[0] != ssa.Value(cs.Call) {
+									ok = false
+								}
+							}
+						}
+					}
+					if h.UrlIdx < 0 || h.TypeIdx < 0 || h.FailIdx < 0 || calls != 1 || m.Handlers[g] != nil {
+						ok = false
+					}
+					made = append(made, h)
+				}
+				if !ok {
+					m.Problems = append(m.Problems, fmt.Sprintf("%s calls an error constructor but does not have the handler signature (url, errorType, failure)", core.FuncName(core0)))
+					continue
+				}
+				for _, h := range made {
+					m.Handlers[h.Fn] = h
+				}
+				viaCores = append(viaCores, core0)
 			}
 		}
 		// thin wrappers of a handler: their own (url, errorType, failure[, descr][, cause]) parameters handed on unchanged,
@@ -372,6 +445,9 @@ func buildErrModel(c *Ctx) *errModel {
 		// a shared core (`return p.report(u, e, failure)`), a recording helper, a predicate on the options. ERR-shape reads
 		// the handlers with these inlined; ERR-ni counts them as part of the handlers.
 		m.Cores = map[*ssa.Function]bool{}
+		for _, vc := range viaCores {
+			m.Cores[vc] = true
+		}
 		{
 			ix := sitesOf(c)
 			for changed := true; changed; {
@@ -767,10 +843,23 @@ func init() {
 					s.OK(key+"/table", pos, "returns the answer of "+h.Forward.Fn.Name()+", whose table is checked")
 					continue
 				}
-				// (1) constructor argument wiring
+				// (1) constructor argument wiring (read in the handler's own frame: a core that is handed a struct is looked
+				// through field by field)
 				var bad []string
+				rootOfArg := func(v ssa.Value) ssa.Value { return v }
+				if h.ViaCore != nil {
+					fg0 := flatten(c, h.Fn, func(g *ssa.Function) bool { return g == h.ViaCore }, 1)
+					for _, nd := range fg0.Nodes {
+						for _, ins := range nd.Instrs {
+							if ins == ssa.Instruction(h.CtorCall) {
+								nn := nd
+								rootOfArg = func(v ssa.Value) ssa.Value { return nn.Root(v) }
+							}
+						}
+					}
+				}
 				for i, cp := range h.Ctor.Params {
-					arg := h.CtorCall.Common().Args[i]
+					arg := rootOfArg(h.CtorCall.Common().Args[i])
 					switch {
 					case namedOf(cp.Type()) == "ErrorType":
 						if arg != ssa.Value(h.Fn.Params[h.TypeIdx]) {
@@ -781,13 +870,16 @@ func init() {
 							bad = append(bad, "failure passed to the constructor is not the handler's failure argument")
 						}
 					case types.Identical(cp.Type(), types.Universe.Lookup("error").Type()):
+						if h.CauseIdx < 0 && h.ViaCore != nil && isNilConst(arg) {
+							break // the handler has no cause: the core is handed none
+						}
 						if h.CauseIdx < 0 || arg != ssa.Value(h.Fn.Params[h.CauseIdx]) {
 							bad = append(bad, "cause passed to the constructor is not the handler's cause argument")
 						}
 					case cp.Name() == "url":
 						ok := false
 						if u, isU := arg.(*ssa.UnOp); isU && u.Op == token.MUL {
-							if fa, isF := u.X.(*ssa.FieldAddr); isF && h.isURL(fa.X, func(v ssa.Value) ssa.Value { return v }) && fieldElem(fa.X.Type(), fa.Field) == "Url:inputUrl" {
+							if fa, isF := u.X.(*ssa.FieldAddr); isF && h.isURL(fa.X, rootOfArg) && fieldElem(fa.X.Type(), fa.Field) == "Url:inputUrl" {
 								ok = true
 							}
 						}
@@ -795,6 +887,9 @@ func init() {
 							bad = append(bad, "url passed to the constructor is not u.inputUrl")
 						}
 					case cp.Name() == "descr":
+						if k, isK := constString(arg); h.DescrIdx < 0 && h.ViaCore != nil && isK && k == "" {
+							break // the handler has no description: the core is handed the empty one
+						}
 						if h.DescrIdx < 0 || arg != ssa.Value(h.Fn.Params[h.DescrIdx]) {
 							bad = append(bad, "description passed to the constructor is not the handler's descr argument")
 						}
